@@ -224,7 +224,7 @@ def abi_corr(which):
     return corr
 
 
-register('C06', corr=abi_corr('enc'),
+C06_ASSUMPTIONS = dict(
          assumptions=['encodings below 2^32 bytes (u32 offset arithmetic of the implementation is modelled without wrap-around)',
                       'the Rust harness calls the crate\'s abi_encode/raw_abi_encode with StaticApi (native debug build)'])
 C07_ASSUMPTIONS = dict(
@@ -471,6 +471,14 @@ register('C19', corr=trace_corr('its', 'itscases', ITS_N, its_rel({'approveRemot
 register('C20', corr=trace_corr('its', 'itscases', ITS_N, its_rel(None, 25), ITS_RULE, its_nontrivial, monitor=_itsmon),
          assumptions=['metadata registration, minter approvals, role / flow-limit / trusted-address management and views are not pause-gated, following the property text'])
 
+
+# C06 part 2: the bytes that actually leave the service.  Every trace opens with the outbound battery (schedule 12: payment shapes x destination routing, hub-routed
+# chains incl. one with upper-case letters, remote deployments, links); the payload in the gateway's contract-call event (and the gas-service events) of every outbound
+# operation is compared with the model's encoding of the same message.
+register('C06', corr=combine(abi_corr('enc'),
+                             trace_corr('its-d', 'itscases', (4, 40), its_rel({'transfer', 'callContract', 'deployRemote', 'deployRemoteCanonical', 'linkToken', 'props', 'registerMetadata'}, 4),
+                                        ITS_RULE, its_nontrivial, extra_args=(12,))),
+         **C06_ASSUMPTIONS)
 
 # C07 part 2: get_message_type in ITS execute.  Every trace opens with the message-type battery (schedule 13): first words 2^63, 2^64, 2^255, 6, 7, 2^32 and
 # known types under non-zero high bytes (2^64+1, 2^255+5, 2^128+4, 2^192, 2^63+1), direct and inside the hub wrapper; the execute steps are compared with the model.
